@@ -79,6 +79,22 @@ def isSetopNode : Query → Bool
   | .setop _ _ _ _ => true
   | _ => false
 
+/-- the statement has a correlated subquery: some expression refers to an enclosing query's row -/
+def hasCorrelatedSubquery (c : Case) : Bool :=
+  match c.raw.getObjVal? "plan" with
+  | .ok p => (p.compress.splitOn "\"outer\"").length > 1
+  | .error _ => false
+
+/-- a FROM clause with two or more joins: a join whose input is itself a join -/
+def joinOverJoin : Query → Bool
+  | .join _ _ _ _ _ l r => isJoinNode l || isJoinNode r
+  | _ => false
+
+/-- GROUPING SETS / ROLLUP / CUBE whose input contains a join -/
+def groupingOverJoin : Query → Bool
+  | .groupingSets _ _ _ q => anyNode isJoinNode q
+  | _ => false
+
 /-- C01 inherits the defects of the operator properties.  Exact attribution where the defect is mirrored by a model
     (set operations at the top of the statement: C01-F24a NULLs / C01-F24b ALL multiplicities); otherwise signature +
     neutraliser (DESIGN §3.4): a WRONG ANSWER (never a panic) over tables that contain NULLs whose `nonull`-neutralised
@@ -89,12 +105,19 @@ def isSetopNode : Query → Bool
       C01-F24a set operations below the top level       (C24: NULLs not distinct)
     and, for failures that survive the NULL neutraliser, neutraliser `noopt` (the same case with every optimizer rule
     switched off passes the oracle):
-      C01-F03 an optimizer rule changes the answer      (C03: PredicatePushdown OR-factoring, JoinReorder over outer joins, …) -/
+      C01-F03 an optimizer rule changes the answer      (C03: PredicatePushdown OR-factoring, JoinReorder over outer joins, …)
+    and finally three signature-only classes, tried in this order, for defects that no data / configuration neutraliser removes:
+      C01-F23c the statement has a correlated subquery   (C23: scalar / IN / NOT IN / EXISTS subqueries with an outer reference)
+      C01-F27b grouping sets over a join                 (C27/A.27: equally named key columns of a self join)
+      C01-F22b a FROM clause with two or more joins      (C22: keys from two earlier FROM items, outer join below another join) -/
 def attrC01 : AttrFn := fun c o spec =>
   match o with
   | .ok out =>
-    if Engine.SetOps.hasTopSetop c.plan then
-      (attrC24 c o spec).map (fun id => if id == "C24-F1" then "C01-F24a" else "C01-F24b")
+    let exact : Option String :=
+      if Engine.SetOps.hasTopSetop c.plan then
+        (attrC24 c o spec).map (fun id => if id == "C24-F1" then "C01-F24a" else "C01-F24b")
+      else none
+    if exact.isSome then exact
     else if hasNull c && neutralPasses c then
       if anyNode isAggNode c.plan then some "C01-F21"
       else if anyNode hasSubqueryExpr c.plan then some "C01-F23"
@@ -102,6 +125,10 @@ def attrC01 : AttrFn := fun c o spec =>
       else if anyNode isSetopNode c.plan then some "C01-F24a"
       else none
     else if nooptPasses c then some "C01-F03"
+    -- signature-only classes (no neutraliser exists at the data / configuration level); a failure outside them is a new VIOLATION
+    else if hasCorrelatedSubquery c then some "C01-F23c"
+    else if anyNode groupingOverJoin c.plan then some "C01-F27b"
+    else if anyNode joinOverJoin c.plan then some "C01-F22b"
     else let _ := out; none
   | _ => none
 
